@@ -2,10 +2,10 @@ SPECIFICATION Spec
 CONSTANTS
   Kind = "lb"
   Threads = {1, 2}
-  MaxCalls = 4
+  MaxCalls = 3
   Chunks = {0}
   Ns = {2, 3}
-  Sizes = {0, 5}
+  Sizes = {5}
   NChange = TRUE
 INVARIANTS Offered_Inv LB_PicksFewest LB_Account Judge_Accepts
 CHECK_DEADLOCK FALSE
